@@ -130,9 +130,9 @@ type Scenario struct {
 	Srv    string `json:"srv"`    // server name (default "srv")
 	Dst    string `json:"dst"`    // client's destination (default = Srv)
 	CStats int    `json:"cstats"`
+	SIcpt  int    `json:"sicpt"`  // server built with that many pass-through unary and stream interceptors (1: single, >1: chained)
+	CIcpt  int    `json:"cicpt"`  // the same for the client connection
 	SStats int    `json:"sstats"`
-	CIcpt  int    `json:"cicpt"`
-	SIcpt  int    `json:"sicpt"`
 	Steps  []Step `json:"steps"`
 }
 
@@ -459,6 +459,7 @@ func (rt *runtimeS) setup() {
 	if !sc.RawSrv {
 		var opts []goat.ServerOption
 		opts = append(opts, rt.serverObservers()...)
+		opts = append(opts, passThroughServerInterceptors(sc.SIcpt)...)
 		rt.srv = goat.NewServer(sc.Srv, opts...)
 		rt.srv.RegisterService(rt.w.serviceDesc(), nil)
 	}
